@@ -41,11 +41,12 @@ PROPS = {
 PROPS['C20'] = dict(
     title='entry points agree',
     units=['wrap', 'depth'],
+    engines=[dict(module='gvc.engine', args=dict(analyses=('stateless',)))],
     shims=['A-path/fs', 'A-str', 'A-hashmap'],
     design='DESIGN.md 3/C20',
     technique='contract-based deductive verification (Verus) of the verbatim wrapper bodies; callees carry an assumed contract attached to their real signature and keyed by parameter name',
     level_text='Deductive proof over the real bodies of preprocess, preprocess_inner, parse_sv, parse_sv_str, parse_lib, parse_lib_str, parse_sv_pp and parse_lib_pp that each equals its callee applied to the NAMED arguments (file route = str route on the file contents = preprocess followed by parse_*_pp, strip_comments off, depths 0/0) for every flag combination, define table and include-path list. A wrapper that swaps, drops or hard-codes a flag, short-cuts a case or alters the result fails its postcondition.',
-    level_note='Assumed: the ghost file system is constant during a call; preprocess_str and the four parser entry points are uninterpreted functions of their named parameters; shims for File/BufReader/PathBuf/HashMap; Verus+z3.',
+    level_note='Frame: the crates holding the wrappers declare no static, thread_local, lazy or atomic state (gvc.stateless inventory), so the uninterpreted callee functions may depend on the named arguments and the file system only. Assumed: the ghost file system is constant during a call; preprocess_str and the four parser entry points are uninterpreted functions of their named parameters; shims for File/BufReader/PathBuf/HashMap; Verus+z3.',
     not_covered=['determinism of preprocess_str / the parsers themselves (C07)', 'wrappers are checked against uninterpreted callee functions, i.e. agreement, not correctness of the result'],
 )
 PROPS['C09'] = dict(
@@ -113,7 +114,7 @@ PROPS['C06'] = dict(
 )
 PROPS['C10'] = dict(
     title='include',
-    units=['arms', 'depth', 'wrap'],
+    units=['arms', 'depth', 'wrap', 'rtmu'],
     shims=['A-glue', 'A-path/fs', 'A-hashmap'],
     design='DESIGN.md 3/C10',
     technique='contract-based deductive verification (Verus) of the verbatim IncludeCompilerDirective arm incl. the include-path search loop; nested preprocessing as an uninterpreted function of named parameters',
